@@ -42,7 +42,22 @@ def world(prop, test, rule, quick=(8, 60), thorough=(16, 1500), **kw):
     return d
 
 
-CHECKS["C03"] = world("C03", "TestC03",
-    "generated histories (10-60 ops + drain epilogue) on a generated valid configuration; non-trivial = at least 5 scheduler bindings and at least one disturbance "
-    "(node removal with a swap in flight, application removal with live allocations, release of an unknown/released key, duplicated or dropped confirmation); "
-    "distinct = hash of the resolved op trace")
+HIST = "generated histories of SI requests and scheduling cycles (10-80 ops) on a generated valid configuration (queues depth<=3, sparse quotas, limits, templates); distinct = hash of the resolved op trace; "
+
+CHECKS["C01"] = world("C01", "TestC01", HIST + "profile tight-nodes; non-trivial = a checked scheduler binding onto a node that already held allocations, or a checked binding in a history "
+    "with an earlier capacity change / drain / foreign allocation")
+CHECKS["C02"] = world("C02", "TestC02", HIST + "profile tight-queues; non-trivial = at least one scheduling decision that raised the usage of a queue on a type its maximum defines "
+    "(root: sum of node capacities)")
+CHECKS["C03"] = world("C03", "TestC03", HIST + "profile mixed + drain epilogue; non-trivial = at least 5 scheduler bindings and at least one disturbance "
+    "(node removal with a swap in flight, application removal with live allocations, release of an unknown/released key, duplicated or dropped confirmation)")
+CHECKS["C04"] = world("C04", "TestC04", HIST + "profile gang (placeholders, timeouts, preemption); judged only from SI traffic against the shim model; non-trivial = at least one core initiated "
+    "release and a confirmation delivered twice, kept for a duplicate or never")
+CHECKS["C05"] = {
+    **world("C05", "TestC05", HIST + "profile limits (named users/groups, wildcards, nested, tight); non-trivial = a scheduling decision for a user/group with a configured limit on the "
+            "application's queue path; plus sequences of UpdateConfig on ugm.Manager: non-trivial = >=2 reloads of which one changes or drops a limit of a tracker holding usage"),
+}
+CHECKS["C09"] = world("C09", "TestC09", HIST + "profile reserve (reservation delay 0, small nodes, 30% required-node asks); non-trivial = a reservation was made and one was removed by "
+    "something other than a scheduling cycle (ask/app/node removal, RM reported binding)")
+CHECKS["C10"] = world("C10", "TestC10", HIST + "profile churn-apps; non-trivial = an application that visited at least 4 states")
+CHECKS["C11"] = world("C11", "TestC11", HIST + "profile churn-apps with max-applications on leaf/parent/root, templates and tags; non-trivial = the gate was evaluated for a limit on an ancestor "
+    "or at least twice")
